@@ -112,12 +112,22 @@ def enumMatch (e : CEnv) (value : Str) (values : List Str) (real : EnumVal) (kw 
   | .tuple items => items.length = values.length && matchList e kw values items
   | .atom a => values.length = 1 && matchAtomic e value a kw
 
+/-- `data_type(raw)` for a `str`: the member whose value `==` the string (a `str`,
+or a `QName`, which compares and hashes as its text) -/
+def exactRaw (raw : Str) : EnumVal → Bool
+  | .atom (.str r) => r = raw
+  | .atom (.qname t) => t = raw
+  | _ => false
+
 /-- `EnumConverter.deserialize(value: str, data_type=cls, **kw)`: index of the
-first matching member -/
+first matching member; when none matches the stripped input, the member whose
+value is the input verbatim (significant surrounding white space) -/
 def enumDeserialize (e : CEnv) (members : List EnumVal) (s : Str) (kw : Kw) : Option Nat :=
   let value := e.strip s
   let values := splitWs e.toEnv value
-  members.findIdx? (fun m => enumMatch e value values m kw)
+  match members.findIdx? (fun m => enumMatch e value values m kw) with
+  | some i => some i
+  | none => if s ≠ value then members.findIdx? (exactRaw s) else none
 
 /-! ### ConverterFactory -/
 
@@ -175,11 +185,14 @@ def listSerialize (kw : Kw) : List Atom → Except SerErr (List Str × Option Ns
       | .ok (ss, m') => .ok (s :: ss, m')
 
 /-- `ConverterFactory.serialize(member, **kw)` → `EnumConverter.serialize` →
-`converter.serialize(member.value, **kw)`; a tuple has no converter. -/
+`converter.serialize(member.value, **kw)`; a tuple value is joined like a list. -/
 def enumSerialize (v : EnumVal) (kw : Kw) : Except SerErr (Str × Option NsMap) :=
   match v with
   | .atom a => atomSerialize a kw
-  | .tuple _ => .error .converterError
+  | .tuple items =>
+    match listSerialize kw items with
+    | .ok (ss, m) => .ok (joinSp ss, m)
+    | .error x => .error x
 
 /-- `ConverterFactory.test(value: str, types, strict, **kw)` -/
 def test (e : CEnv) (s : Str) (types : List Ty) (strict : Bool) (kw : Kw) : Bool :=
